@@ -272,6 +272,14 @@ WORKBOOKS = {
         inputs={'A1': None, 'A2': 1},
         formulas={'B1': ('CatE', 'A1'), 'C1': ('Cat', 'B1'), 'D1': ('Plus', ['A2'], 1),
                   'E1': ('Cat', 'D1')}),
+    # C01: a cell formula whose value is a range (=A1:A2) keeps the top left
+    # value of the range; A1 is blank to begin with (a formula never gives
+    # "no value": a blank reads as 0)
+    'topleft': dict(
+        inputs={'A1': None, 'A2': 7},
+        formulas={'B1': ('Idx', 'A1:A2', 1, 1), 'C1': ('Plus', ['B1'], 1)},
+        texts={'B1': '=A1:A2'},
+        ranges={'A1:A2': [['A1'], ['A2']]}),
     # C01 "written references (cells, ranges, names)": the formulas reach their
     # precedents through defined names (a range name and a cell name)
     'named': dict(
